@@ -783,6 +783,32 @@ for nm, f, cls, meth in PROBE_SITES:
     frag("%s_index_probe" % nm, f, lambda t, c=cls, m=meth: index_probe(t, c, m), "ed_can_put edge", kind="sig:(edge : pyedge) : bool")
 
 
+# ---------------------------------------------------------------- the Buffer / Fleet edge wrappers only delegate
+def delegates(tree, cls, meth):
+    """<cls>.<meth> touches self.inbuiltstore through exactly ONE call of the store's method of the same name (arguments are
+    the wrapper's own) -- nothing else is called on the store and no attribute of it is assigned; reading its lists (for the
+    statistics / a trace line) is allowed.  The edge objects of the model ARE their stores, so anything more here is unmodelled."""
+    fn = find(tree, cls, meth)
+    calls = []
+    for n in ast.walk(fn):
+        if isinstance(n, ast.Call) and isinstance(n.func, ast.Attribute) and ast.unparse(n.func.value) == "self.inbuiltstore":
+            calls.append(n.func.attr)
+        if isinstance(n, (ast.Assign, ast.AugAssign, ast.AnnAssign)):
+            tg = n.targets if isinstance(n, ast.Assign) else [n.target]
+            for t in tg:
+                if "self.inbuiltstore" in ast.unparse(t):
+                    raise Unsupported("%s.%s assigns %s" % (cls, meth, ast.unparse(t)))
+        if isinstance(n, ast.Call) and isinstance(n.func, ast.Attribute) and ast.unparse(n.func.value).startswith("self.inbuiltstore."):
+            # a method of an object hanging off the store (e.g. an event's succeed())
+            raise Unsupported("%s.%s calls %s" % (cls, meth, ast.unparse(n.func)))
+    return "true" if calls == [meth] else "false"
+
+
+for cls, f in (("Buffer", "edges/buffer.py"), ("Fleet", "edges/fleet.py")):
+    for meth in ("reserve_put", "reserve_get", "put", "get", "reserve_put_cancel", "reserve_get_cancel"):
+        frag("%s_%s_delegates" % (cls, meth), f, lambda t, c=cls, m=meth: delegates(t, c, m), "true", kind="const")
+
+
 def belt_gate(tree):
     return GTr().grants(find(tree, "BeltStore", "_do_reserve_put").body)
 
